@@ -267,6 +267,64 @@ fn structured_orders(max_n: usize, rep: &mut Report) {
     rep.bounds.push(format!("7 structured orders (ascending, descending, evens/odds, inside-out, outside-in, reversed 64-blocks) at every length 2..={max_n}: complete"));
 }
 
+/// (e) chains beyond the inline capacity of the multi-word tracker (32 words = 2048 operands)
+fn very_long_chains(tier: Tier, rep: &mut Report) {
+    let table = three_level_table();
+    let lens: Vec<usize> = if tier.thorough() { vec![2040, 2047, 2048, 2049, 2050, 2112, 2113, 4095, 4096, 4097] } else { vec![2047, 2048, 2049, 2113] };
+    let mut cases: Vec<(usize, Vec<&'static str>, String)> = Vec::new();
+    for &n in &lens {
+        let m = n - 1;
+        cases.push((n, vec!["/"; m], "single-operator".into()));
+        cases.push((n, (0..m).map(|i| ["<", "%", "/"][i % 3]).collect(), "cycle-up".into()));
+        cases.push((n, (0..m).map(|i| ["/", "%", "<"][i % 3]).collect(), "cycle-down".into()));
+        cases.push((n, (0..m).map(|i| if i % 64 == 63 { "<" } else { "/" }).collect(), "word-blocks".into()));
+        // tracker situations around the ends and around the 2048 boundary
+        for &i in &[m / 2, 2046usize.min(m - 1), 2047usize.min(m - 1), 2048usize.min(m - 1), m - 1] {
+            for &l in &[0usize, 1, 63, 64, 65, 1000, 2047, 2048] {
+                if l > i {
+                    continue;
+                }
+                let mut ops = vec!["<"; m];
+                for p in (i - l)..i {
+                    ops[p] = "/";
+                }
+                ops[i] = "%";
+                cases.push((n, ops, format!("situation-i{i}-l{l}")));
+            }
+        }
+    }
+    let pipes = [Pipe::P, Pipe::W, Pipe::D];
+    let accs = par_ranges(
+        cases.len() as u64,
+        1,
+        || {
+            install_panic_hook();
+            set_table(&table);
+        },
+        |st, en, acc| {
+            for k in st..en {
+                let (n, ops, name) = &cases[k as usize];
+                // four-digit variable names keep the sorted order = positional order
+                let mut text = String::with_capacity(n * 10);
+                text.push_str("v0000");
+                for (i, o) in ops.iter().enumerate() {
+                    text.push(' ');
+                    text.push_str(o);
+                    text.push_str(&format!(" v{:04}", i + 1));
+                }
+                check_chain_p(&text, &table, &format!("very-long-{name}-n{n}"), acc, &pipes);
+                if k % 17 == 0 {
+                    acc.sample(json!({"n_operands": n, "pattern": name}));
+                }
+            }
+        },
+    );
+    for a in accs {
+        rep.absorb(a);
+    }
+    rep.bounds.push(format!("lengths {lens:?}: {} chains beyond the tracker's inline capacity (2048 operands), pipes {pipes:?}: complete", cases.len()));
+}
+
 pub fn run(tier: Tier) -> i32 {
     let mut rep = Report::new("C14", tier);
     rep.rule = "chains v0 o1 v1 ... ok vk of distinct variables whose operator priorities impose a chosen application order: all k! orders for small k, every (operator index, consumed-run) tracker situation at lengths around the 64-operand word boundaries, all orders of a 7-operator window across each boundary, structured orders at every length; through flat (word / slice tracker), deep (slice tracker) and to_deepex (own tracker); oracle: the reference parser's tree; every case is distinct and non-trivial".into();
@@ -292,5 +350,6 @@ pub fn run(tier: Tier) -> i32 {
         boundary_windows(70, 64, &mut rep);
         structured_orders(140, &mut rep);
     }
+    very_long_chains(tier, &mut rep);
     rep.finish()
 }
